@@ -365,8 +365,17 @@ def build(tier):
             x.bound = f'|W| = {n}'
         bounded += v
         fns.append(info)
+    vcs = []
+    import reg_generic
+    try:
+        v, info = reg_generic.vcs()
+    except astload.ExtractionError as e:
+        v = [VC(f'linear_do_vgrad_reg[generic]/not extracted: {str(e)[:160]}', '(check-sat)', solvers=['none'], about='regularisation terms (generic coordinate): extraction failed')]
+        info = {'c_name': 'linear_do_vgrad_reg[generic]', 'cxx': 'linear::function_t::do_vgrad (regularisation part)', 'file': reg_smt.FILE, 'undecided': str(e)[:300]}
+    vcs += v
+    fns.append(info)
     return {
-        'targets': targets, 'vcs': [], 'bounded': bounded, 'functions': fns,
+        'targets': targets, 'vcs': vcs, 'bounded': bounded, 'functions': fns,
         'decided': [
             'sum_reduce<linear::accumulator_t>, sum_reduce<gboost::accumulator_t> for every number of accumulators k >= 1: accumulator 0 absorbs accumulators 1..k-1 exactly once each (in order, never itself, no other accumulator is a target), is then normalised exactly once by `samples`, and is the one returned',
             'min_reduce (instantiation of src/wlearner/stump.cpp): returns an element of the vector whose m_score is minimal (at positions 0 and ghost g), with the real comparator lambda = strict < on m_score',
